@@ -99,6 +99,17 @@ class _Keyer(ast.NodeTransformer):
         self.inline = inline
         self.depth = depth
 
+    def visit_Attribute(self, node):
+        # base.attr read: tag with the attribute writes of this function that reach here
+        if isinstance(node.value, ast.Name) and isinstance(node.ctx, ast.Load):
+            defs = self.cfg.defs_at(self.nid, '%s.%s' % (node.value.id, node.attr))
+            if defs:
+                return ast.Attribute(value=node.value, attr='%s@%s' % (
+                    node.attr, ','.join(str(x) for x in sorted(defs))), ctx=ast.Load())
+            return node
+        self.generic_visit(node)
+        return node
+
     def visit_Name(self, node):
         if not isinstance(node.ctx, ast.Load):
             return node
